@@ -16,7 +16,7 @@ func init() {
 			"R2 in every in-repository handler, a write to the client that can follow Next.ServeHTTP is guarded by status >= 400 of that very call (or by the buffered-response idiom), and headers of a buffered response are copied to the real writer only when no error return can follow; " +
 			"R3 the server's fallback error writer runs under exactly status >= 400 of the chain's result; gzip writes its fallback to the unwrapped writer; " +
 			"R4 each wrapper writer commits the header from Write only while its own 'written' flag is unset and sets the flag whenever it commits; " +
-			"R5 the gzip handler finishes the compressed stream exactly once on every exit (one deferred release registered before the next handler runs, conditional on nothing but the compressor's existence, closing before pooling). Since round 4: R7 the buffering response writer as a table: stream or buffer x explicit header x Write/ReadFrom. Since round 5: R8 errors.setup as a table (errors, errors visible, errors <file>, a block, two lines): the installed handler's logger has Start registered at startup and Close at shutdown. Since round 6: R9 errorsParse stores every error page as the written path resolved against the site root. Since round 7: R10 fastcgi reports no error status once the responder's header is written. R11 errors' errorPage commits the header once on every path. Since round 8: R7 Buffered() is true exactly when the response is held back, also for a header-only response.",
+			"R5 the gzip handler finishes the compressed stream exactly once on every exit (one deferred release registered before the next handler runs, conditional on nothing but the compressor's existence, closing before pooling). Since round 4: R7 the buffering response writer as a table: stream or buffer x explicit header x Write/ReadFrom. Since round 5: R8 errors.setup as a table (errors, errors visible, errors <file>, a block, two lines): the installed handler's logger has Start registered at startup and Close at shutdown. Since round 6: R9 errorsParse stores every error page as the written path resolved against the site root. Since round 7: R10 fastcgi reports no error status once the responder's header is written. R11 errors' errorPage commits the header once on every path. Since round 8: R7 Buffered() is true exactly when the response is held back, also for a header-only response. Since round 10: R12 every pooled object with a Reset method (response and include buffers, the ClientHello buffer, gzip writers) is Reset in the getting function before any other use, so no response contains bytes an earlier or panicked request left in a pooled buffer.",
 		notDecided: "client-visible byte equality; liveness of net/http after a panic; handlers outside the repository.",
 	})
 }
@@ -34,6 +34,7 @@ func runC12(r *Report, p *Program) {
 	c12R9(h)
 	c12R10(h)
 	c12R11(h)
+	c12R12(h)
 }
 
 // writes500: the instruction writes a 500 response (DefaultErrorFunc/WriteTextResponse/errorPage with constant 500).
